@@ -277,7 +277,14 @@ func strRepeatFunc(_ *ctx.EvalCtx, receiver object.Object, args ...object.Object
 	}
 
 	val := receiver.(*object.Str).Value
-	repeated := strings.Repeat(val, max(int(firstArg.Value), 0))
+	count := max(int(firstArg.Value), 0)
+
+	if count > maxStrLen || len(val)*count > maxStrLen {
+		msg := fmt.Sprintf(fail.ErrFuncResultTooLong, "repeat", object.STR_OBJ, maxStrLen)
+		return nil, errors.New(msg)
+	}
+
+	repeated := strings.Repeat(val, count)
 
 	return &object.Str{Value: repeated}, nil
 }
